@@ -10,7 +10,7 @@ run_demo() { # $1 = build dir ; returns demo exit code
     gcc -w -I$1 -I$1/qsopt_ex $RES/demo$N.c $1/libqsx.a $LIBS -o $1/demo$N || return 99
     ( cd $1 && timeout 300 ./demo$N > demo$N.out 2>&1 ); return $?
   elif [ -f $RES/demo$N.sh ]; then
-    ( cd $RES && BUILD=$1 timeout 300 bash ./demo$N.sh $1 > $1/demo$N.out 2>&1 ); return $?
+    ( cd $RES && BUILD=$1 timeout 300 bash ./demo$N.sh $1/esolver/esolver > $1/demo$N.out 2>&1 ); return $?
   fi
   return 98
 }
